@@ -33,6 +33,7 @@ const (
 	c17TcpRefuses
 	c17TcpFailsMid
 	c17TcpStale // every TCP connection answers its first query and is closed by the server when a second one arrives
+	c17TcpAnswersTC // answers, and the TCP reply itself has the TC bit set (an answer that does not fit 64 KiB): it is still what the caller gets
 	c17TcpSlowFirst // the first query over TCP is answered after 4 s only (later than the deadline of the exchange that sent it), the others at once
 )
 
@@ -40,6 +41,7 @@ type c17sys struct {
 	flags   uint16
 	size    int
 	tcpMode int
+	runt     int // the server sends a runt datagram before its reply: 1 = five bytes, 2 = empty
 	warmFail int // earlier exchanges whose TCP retry was refused (history of failures)
 	tcpDown  bool // the TCP side refuses connections right now
 	nonce    uint32
@@ -87,6 +89,12 @@ func (k c17sink) Dial(ctx context.Context, network, addr string) (stdnet.Conn, e
 			if nth == 0 {
 				s.udpRep = rep
 			}
+			switch s.runt {
+			case 1:
+				a.Deliver([]byte{1, 2, 3, 4, 5})
+			case 2:
+				a.Deliver([]byte{})
+			}
 			a.Deliver(append([]byte(nil), rep...))
 			return nil
 		}
@@ -118,6 +126,9 @@ func (k c17sink) Dial(ctx context.Context, network, addr string) (stdnet.Conn, e
 				}
 				s.nonce++
 				rep := fk.Answer(m, 4242+s.nonce)
+				if s.tcpMode == c17TcpAnswersTC {
+					rep[2] |= 0x02
+				}
 				if s.tcpMode == c17TcpSlowFirst && !s.slowDone {
 					// an in-order server: the first answer takes 4 s, answers to later
 					// queries on this connection queue up behind it
@@ -200,9 +211,12 @@ func (s *c17sys) run() {
 // judge returns an outcome class and an optional violation (oracle, description).
 func (s *c17sys) judge(x *vs.Exec) (string, string, string) {
 	tc := s.flags&0x0200 != 0
-	desc := fmt.Sprintf("udp reply flags=%#04x size=%d tcpMode=%d socks5=%v warm=%v failedBefore=%d -> err=%v resp=%d bytes dials=%v tcpQueries=%d", s.flags, s.size, s.tcpMode, s.socks5, s.warm, s.warmFail, s.err, len(s.resp), s.dials, len(s.tcpGot))
+	desc := fmt.Sprintf("udp reply flags=%#04x size=%d tcpMode=%d socks5=%v warm=%v failedBefore=%d runt=%d -> err=%v resp=%d bytes dials=%v tcpQueries=%d", s.flags, s.size, s.tcpMode, s.socks5, s.warm, s.warmFail, s.runt, s.err, len(s.resp), s.dials, len(s.tcpGot))
 	if x.Panic != "" {
 		return "panic", "panic", x.Panic + "\n" + desc
+	}
+	if x.Livelock {
+		return "livelock", "livelock", "the exchange spins: the execution exhausted its event budget\n" + desc
 	}
 	if !s.done || len(x.Blocked) > 0 {
 		return "stuck", "stuck", fmt.Sprintf("did not finish, parked %v\n%s", x.Blocked, desc)
@@ -243,7 +257,7 @@ func (s *c17sys) judge(x *vs.Exec) (string, string, string) {
 		}
 	}
 	switch s.tcpMode {
-	case c17TcpAnswers, c17TcpStale, c17TcpSlowFirst:
+	case c17TcpAnswers, c17TcpStale, c17TcpSlowFirst, c17TcpAnswersTC:
 		if s.tcpMode == c17TcpSlowFirst && !s.warm {
 			break // the judged exchange itself hit the slow answer: it may time out
 		}
@@ -272,10 +286,11 @@ func TestVerifC17a(t *testing.T) {
 		Socks5  bool   `json:"socks5,omitempty"`
 		Warm    bool   `json:"warm,omitempty"`
 		WarmFail int   `json:"warm_fail,omitempty"`
+		Runt     int   `json:"runt,omitempty"`
 	}
 	runOne := func(c in) (string, string, string) {
-		s := &c17sys{flags: c.Flags, size: c.Size, tcpMode: c.TcpMode, socks5: c.Socks5, warm: c.Warm, warmFail: c.WarmFail}
-		x := vs.Run1(vs.Config{Horizon: time.Minute}, s.run)
+		s := &c17sys{flags: c.Flags, size: c.Size, tcpMode: c.TcpMode, socks5: c.Socks5, warm: c.Warm, warmFail: c.WarmFail, runt: c.Runt}
+		x := vs.Run1(vs.Config{Horizon: time.Minute, MaxEvents: 3_000_000, LivelockOK: true}, s.run)
 		res.Transitions += int64(x.Events)
 		return s.judge(x)
 	}
@@ -338,6 +353,13 @@ func TestVerifC17a(t *testing.T) {
 	}
 	for b2 := 0; b2 < 256; b2++ {
 		cases = append(cases, in{Flags: uint16(b2<<8 | 0x80), Size: 512, TcpMode: c17TcpSlowFirst, Warm: true})
+		cases = append(cases, in{Flags: uint16(b2<<8 | 0x80), Size: 512, TcpMode: c17TcpAnswersTC})
+	}
+	// a runt datagram (5 bytes / empty) ahead of the reply
+	for b2 := 0; b2 < 256; b2++ {
+		for _, rn := range []int{1, 2} {
+			cases = append(cases, in{Flags: uint16(b2<<8 | 0x80), Size: 512, TcpMode: c17TcpAnswers, Runt: rn})
+		}
 	}
 	// a history of failed TCP retries (1, 15, 16, 17, 40 of them), then the TCP side is back
 	for _, k := range []int{1, 15, 16, 17, 40} {
@@ -381,15 +403,16 @@ func TestVerifC17b(t *testing.T) {
 		d = 3
 	}
 	var sys *c17sys
-	flagsMenu := []uint16{0x0000, 0x0200, 0x8180, 0x8380, 0xFDFF, 0xFFFF}
+	flagsMenu := []uint16{0x0200, 0x8180, 0x8380, 0xFDFF}
 	sc := vr.Scenario{Name: "udpfallback-schedules", P: d, D: d, Horizon: time.Minute,
 		Body: func() {
 			sys = &c17sys{}
 			sys.flags = flagsMenu[vs.Choose(len(flagsMenu))]
 			sys.size = c17Sizes[vs.Choose(2)]
-			sys.tcpMode = vs.Choose(5)
+			sys.tcpMode = vs.Choose(6)
 			sys.socks5 = vs.Choose(2) == 1
 			sys.warm = vs.Choose(2) == 1
+			sys.runt = vs.Choose(2) * 2 // none / an empty datagram
 			sys.run()
 		},
 		Check: func(x *vs.Exec) (string, *vs.Violation) {
